@@ -313,6 +313,110 @@ def run_send_json(ctl: explorer.Ctl, cfg: Dict[str, Any]) -> Dict[str, Any]:
     return {"outcome": f"lines={len(lines)}/closed={info.get('closed_after')}", "violations": viol}
 
 
+# ---------------------------------------------------------------------------
+# a pipe that is full: the bytes are taken, then the writer is kept waiting
+# ---------------------------------------------------------------------------
+RUN_SLOW = "vf.checks.c06:run_slow"
+SLOW_T = [1.0, 4.9, 5.1, 11.0, float("inf")]
+SLOW_T_NAMES = ["1s", "4.9s", "5.1s", "11s", "forever"]
+SLOW_ITEMS = ["typed-request", "typed-notification", "dict-request", "str-json-dumps"]
+
+
+def run_slow(ctl: explorer.Ctl, cfg: Dict[str, Any]) -> Dict[str, Any]:
+    """The child's stdin takes the bytes of message number slow_at and then does not drain for T virtual seconds."""
+    import asyncio
+
+    from chuk_mcp.transports.stdio.stdio_client import stdio_client
+
+    by_name = {t[0]: t for t in _items()}
+    seq = [by_name[SLOW_ITEMS[i]] for i in cfg["seq"]]
+    T = SLOW_T[cfg["T"]]
+    k = cfg["slow_at"]
+    loop = new_loop(horizon=200)
+    q = seams.Quiescence(loop)
+    proc = seams.FakeProcess()
+    proc.stdin.slow = lambda idx, data: (T if idx == k else None)
+    info: Dict[str, Any] = {}
+
+    async def main():
+        with seams.patched_open_process(lambda cmd, kw: proc):
+            async with stdio_client(seams.stdio_params()) as (read, write):
+                for (name, mk, exp) in seq:
+                    await write.send(mk())
+                    if cfg.get("mode") == "step":
+                        await q.settle()
+                await asyncio.sleep(60.0)      # virtual: every finite wait is over, every retry a library might make happened
+                await q.settle()
+                info["before_close"] = bytes(proc.stdin.data)
+                await write.aclose()
+                await q.settle()
+
+    status, val = loop.run_main(main())
+    errors = loop.collect_errors()
+    loop.abandon()
+    names = [t[0] for t in seq]
+    where = f"items={names} slow={names[k]}#{k} T={SLOW_T_NAMES[cfg['T']]} mode={cfg.get('mode')}"
+    tag = {"part": "slow-pipe", "wait": SLOW_T_NAMES[cfg["T"]]}
+    if status != "ok":
+        return {"outcome": status, "violations": [{"sig": {"class": "did-not-finish", **tag}, "msg": f"{where}: {status} {core.clean_repr(val)}"}]}
+    viol: List[dict] = []
+    data = bytes(proc.stdin.data)
+    lines = data.split(b"\n")
+    tail, lines = lines[-1], lines[:-1]
+    if tail != b"":
+        viol.append({"sig": {"class": "unterminated-line", **tag}, "msg": f"{where}: stdin does not end with a newline"})
+    decoded: List[Any] = []
+    for raw in lines:
+        try:
+            decoded.append(json.loads(raw.decode("utf-8")))
+        except Exception:
+            decoded.append({"__not_json__": raw[:60].decode("latin-1")})
+    expected = [t[2] for t in seq]
+
+    def show(vals):
+        return [v.get("id", v.get("method")) if isinstance(v, dict) else v for v in vals]
+
+    if T != float("inf"):
+        ok = len(decoded) == len(expected) and all(strict_eq(a, b) for a, b in zip(decoded, expected))
+        need = "exactly the messages sent, once each, in order"
+    else:
+        # the pipe never drains: everything up to and including the slow message was handed over; whatever else a
+        # library manages to write may only be later messages, each at most once, in order
+        i = 0
+        ok = True
+        for d in decoded:
+            while i < len(expected) and not strict_eq(d, expected[i]):
+                i += 1
+            if i == len(expected):
+                ok = False
+                break
+            i += 1
+        ok = ok and len(decoded) >= k + 1 and all(strict_eq(a, b) for a, b in zip(decoded[: k + 1], expected[: k + 1]))
+        need = "the messages up to the slow one, then at most later messages, each once, in order"
+    if not ok:
+        dup = any(strict_eq(a, b) for i2, a in enumerate(decoded) for b in decoded[i2 + 1:])
+        viol.append({"sig": {"class": "duplicated-line" if dup else "lines-differ-from-messages", **tag},
+                     "msg": f"{where}: the child got {show(decoded)} ({len(lines)} lines); expected {need}: {show(expected)}"})
+    if info.get("before_close") != data:
+        viol.append({"sig": {"class": "bytes-after-close", **tag}, "msg": f"{where}: bytes were written after the write stream was closed"})
+    if errors:
+        viol.append({"sig": {"class": "loop-error", **tag}, "msg": f"{errors[:2]}"})
+    return {"outcome": f"lines={len(lines)}/sent={len(expected)}/{'never-drains' if T == float('inf') else 'drains'}",
+            "cfg": cfg, "violations": viol}
+
+
+def slow_configs(tier: str) -> List[Dict[str, Any]]:
+    out = []
+    maxlen = 3 if tier == "quick" else 4
+    for L in range(1, maxlen + 1):
+        for combo in itertools.product(range(len(SLOW_ITEMS)), repeat=L):
+            for k in range(L):
+                for t in range(len(SLOW_T)):
+                    for mode in ("burst", "step"):
+                        out.append({"seq": list(combo), "slow_at": k, "T": t, "mode": mode})
+    return out
+
+
 def _family(n: str) -> str:
     return n.split("-")[0]
 
@@ -333,6 +437,8 @@ def _payloads(depth: int):
 
 def run(tier: str, only=None) -> core.Result:
     res = core.Result("C06", "fault_enumeration")
+    if only and not isinstance(only, (list, tuple, set)):
+        only = [x for x in str(only).split(",") if x]
     n = len(_items())
     maxlen = 3 if tier == "quick" else 4
     cfgs = []
@@ -358,6 +464,13 @@ def run(tier: str, only=None) -> core.Result:
              for b in ("none", "before", "between", "after")]
     out = explorer.explore(RUN_X, xcfgs, fidelity=True)
     sched.absorb(res, "two-writers-on-stdin", RUN_X, out, xcfgs)
+    scfgs = slow_configs(tier)
+    out = explorer.explore(RUN_SLOW, scfgs, fidelity=True)
+    sched.absorb(res, "slow-pipe", RUN_SLOW, out, scfgs)
+    if not only or "backends" in only:
+        from .. import c06_backend
+
+        c06_backend.add_part(res, tier)
     res.coverage["exhaustive"] = True
     res.coverage["rule"] = (
         f"all sequences of <= {maxlen} outbound items over {n} item kinds (typed request/notification/response/error, "
@@ -365,11 +478,22 @@ def run(tier: str, only=None) -> core.Result:
         "kinds at every position) x {burst, settle-after-each}; plus every JSON value of the bounded grammar as a "
         "params/result payload in typed, dict and string form; plus the outbound writer racing the reader's batch-rejection "
         "error line on the child's stdin (message size small / > 64 KiB x 1-2 messages x 0-3 scheduling points per write x "
-        "batch arriving before / between / after the writes); distinct = distinct observation digests"
+        "batch arriving before / between / after the writes); plus a full pipe: all sequences of <= "
+        f"{3 if tier == 'quick' else 4} messages over typed request / typed notification / dict / pre-serialised string x the "
+        "position of the message whose write takes the bytes and then keeps the writer waiting x wait in {1, 4.9, 5.1, 11 s, "
+        "forever} (virtual) x {burst, settle-after-each}; plus, in fresh interpreters of the four backend configurations "
+        "(pydantic or fallback models x orjson or stdlib json), a pretty-printing call made BEFORE the connection "
+        "({none, model_dump_json(indent=2), fast_json.dumps(x, indent=2)}) followed by three write-stream sequences; "
+        "distinct = distinct observation digests"
     )
     res.assumptions = [
         "pre-serialised strings are single compact JSON texts (pretty-printed input is outside the statement)",
         "raw U+2028/U+0085 inside a line are not line breaks for a byte-level NDJSON reader",
         "NaN/Infinity are not JSON values and are outside the payload grammar",
+        "full pipe: the scripted stdin records the bytes when send() is called and then suspends the caller (write + drain); a "
+        "pipe that takes only part of a line is not modelled; when the pipe never drains only 'no duplicates, order kept, "
+        "everything up to the slow message present' is required",
+        "backend part: each (configuration, pre-step) runs in its own fresh interpreter, so nothing depends on what other "
+        "cases did before",
     ]
     return res
